@@ -223,7 +223,11 @@ Inductive lop :=
 | LShutdown (live : bool).
 
 (** Metric provider.  State: has Shutdown returned; how many exporter shutdowns were seen per reader. *)
-Record mspec := { ms_shut : bool; ms_xshut : list nat }.
+Record mspec := {
+  ms_shut : bool; ms_xshut : list nat;
+  ms_loose : bool   (* log: the Shutdown that did the work had an already-cancelled context and did not wait for the
+                       batch processors' exports in flight: their output may still arrive *)
+}.
 
 Definition count_calls (id : nat) (k : callk) (l : list (nat * callk)) : nat :=
   length (filter (fun c => (fst c =? id) && callk_eqb (snd c) k) l).
@@ -247,23 +251,23 @@ Definition msstep (readers : list rk) (s : mspec) (o : mop) (ob : obs) : option 
   match o with
   | MAdd fresh =>
       if Bool.eqb (o_flag ob) (negb (ms_shut s && fresh))
-      then Some {| ms_shut := ms_shut s; ms_xshut := counts |} else None
+      then Some {| ms_shut := ms_shut s; ms_xshut := counts; ms_loose := ms_loose s |} else None
   | MCollect i =>
       if (if ms_shut s then err_eqb (o_err ob) EShut else err_eqb (o_err ob) ENil)
-      then Some {| ms_shut := ms_shut s; ms_xshut := counts |} else None
+      then Some {| ms_shut := ms_shut s; ms_xshut := counts; ms_loose := ms_loose s |} else None
   | MFlush live =>
       if err_in (o_err ob) (if ms_shut s then (if live then [ENil; EShut] else [ENil; EShut; ECtx])
                             else (if live then [ENil] else [ENil; ECtx]))
-      then Some {| ms_shut := ms_shut s; ms_xshut := counts |} else None
+      then Some {| ms_shut := ms_shut s; ms_xshut := counts; ms_loose := ms_loose s |} else None
   | MShutdown live =>
       if ms_shut s
-      then if err_in (o_err ob) [ENil; EShut] then Some {| ms_shut := true; ms_xshut := counts |} else None
+      then if err_in (o_err ob) [ENil; EShut] then Some {| ms_shut := true; ms_xshut := counts; ms_loose := ms_loose s |} else None
       else
         (* first Shutdown: every stock exporter has now been shut down exactly once *)
         let all_once := forallb (fun rc => if periodic_std (fst rc) then snd rc =? 1 else snd rc =? 0)
                                 (combine readers counts) in
         if all_once && err_in (o_err ob) (if live then [ENil] else [ENil; ECtx])
-        then Some {| ms_shut := true; ms_xshut := counts |} else None
+        then Some {| ms_shut := true; ms_xshut := counts; ms_loose := ms_loose s |} else None
   end.
 
 Fixpoint mspec_run (readers : list rk) (s : mspec) (l : list (mop * obs)) : bool :=
@@ -272,34 +276,34 @@ Fixpoint mspec_run (readers : list rk) (s : mspec) (l : list (mop * obs)) : bool
   | (o, ob) :: r => match msstep readers s o ob with Some s' => mspec_run readers s' r | None => false end
   end.
 Definition mspec_ok (readers : list rk) (l : list (mop * obs)) : bool :=
-  mspec_run readers {| ms_shut := false; ms_xshut := map (fun _ => 0) readers |} l.
+  mspec_run readers {| ms_shut := false; ms_xshut := map (fun _ => 0) readers; ms_loose := false |} l.
 
 (** Log provider: same shape (the logger provider's Shutdown is documented to return nil afterwards). *)
 Definition has_std (p : lk) : bool := match p with LSimple XStd | LBatch XStd | LSimple XMem | LBatch XMem => true | _ => false end.
 
 Definition lsstep (procs : list lk) (s : mspec) (o : lop) (ob : obs) : option mspec :=
-  let quiet := negb (ms_shut s) || (negb (o_wrote ob)) in
+  let quiet := negb (ms_shut s) || negb (o_wrote ob) || ms_loose s in
   let counts := add_counts KXShutdown (o_xcalls ob) 0 (ms_xshut s) in
   let once_ok := forallb (fun c => c <=? 1) counts in
   if negb (quiet && once_ok) then None else
   match o with
   | LEmit fresh =>
       if Bool.eqb (o_flag ob) (negb (ms_shut s && fresh))
-      then Some {| ms_shut := ms_shut s; ms_xshut := counts |} else None
+      then Some {| ms_shut := ms_shut s; ms_xshut := counts; ms_loose := ms_loose s |} else None
   | LFlush live =>
       if err_in (o_err ob) (if ms_shut s then [ENil] else (if live then [ENil] else [ENil; ECtx]))
          && (negb (ms_shut s) || calls_eqb (o_calls ob) [])
-      then Some {| ms_shut := ms_shut s; ms_xshut := counts |} else None
+      then Some {| ms_shut := ms_shut s; ms_xshut := counts; ms_loose := ms_loose s |} else None
   | LShutdown live =>
       if ms_shut s
       then if err_eqb (o_err ob) ENil && calls_eqb (o_calls ob) []
-           then Some {| ms_shut := true; ms_xshut := counts |} else None
+           then Some {| ms_shut := true; ms_xshut := counts; ms_loose := ms_loose s |} else None
       else
         let all_once := forallb (fun rc => if has_std (fst rc) then snd rc =? 1 else snd rc =? 0)
                                 (combine procs counts) in
         if all_once && calls_eqb (o_calls ob) (to_all KShutdown (seq 0 (length procs)))
            && err_in (o_err ob) (if live then [ENil] else [ENil; ECtx])
-        then Some {| ms_shut := true; ms_xshut := counts |} else None
+        then Some {| ms_shut := true; ms_xshut := counts; ms_loose := negb live |} else None
   end.
 
 Fixpoint lspec_run (procs : list lk) (s : mspec) (l : list (lop * obs)) : bool :=
@@ -308,7 +312,7 @@ Fixpoint lspec_run (procs : list lk) (s : mspec) (l : list (lop * obs)) : bool :
   | (o, ob) :: r => match lsstep procs s o ob with Some s' => lspec_run procs s' r | None => false end
   end.
 Definition lspec_ok (procs : list lk) (l : list (lop * obs)) : bool :=
-  lspec_run procs {| ms_shut := false; ms_xshut := map (fun _ => 0) procs |} l.
+  lspec_run procs {| ms_shut := false; ms_xshut := map (fun _ => 0) procs; ms_loose := false |} l.
 
 (** * Concurrent Shutdown / ForceFlush storms on the log and metric providers: what is observable
     after all callers of one round have returned. *)
